@@ -247,7 +247,17 @@ func (s *Solver) Check(pc []*Term, extra *Term, vars []*Term) (SatResult, map[in
 	}
 	s.send("(check-sat)")
 	s.in.Flush()
+	// watchdog: a solver that ignores its own time limit is killed
+	done := make(chan struct{})
+	go func() {
+		select {
+		case <-done:
+		case <-time.After(time.Duration(s.TimeoutMS)*time.Millisecond*2 + 5*time.Second):
+			s.cmd.Process.Kill()
+		}
+	}()
 	line, err := s.readLine()
+	close(done)
 	d := time.Since(t0).Seconds()
 	s.Seconds += d
 	if d > s.MaxQuery {
